@@ -98,6 +98,7 @@ def differential_evolution(
     best_solution = population[best_idx][:]
     best_obj = fitness[best_idx]
 
+    iteration = 0
     for iteration in range(1, max_iter + 1):
         for i in range(pop_size):
             # Select base vector
